@@ -262,7 +262,7 @@ def describe (s : Spec) (row : List Str) : Except Err (Str × List (Str × Str))
 
 /-- the text handed to `strptime`; `none` = `IndexError` -/
 def dateToken (s : Spec) (dateStr : Str) : Option Str :=
-  if s.dateFormat.contains ' ' then some dateStr else firstToken dateStr
+  if s.dateFormat.any isPySpace then some dateStr else firstToken dateStr
 
 /-- `{+amount}` wins over `{-amount}` -/
 def applySign (s : Spec) (q : F64) : F64 :=
